@@ -1,6 +1,7 @@
 import PgVerif.Model.LR
 import PgVerif.Model.Forest
 import PgVerif.Spec.SPPF
+import PgVerif.Model.Pos
 /-!
 `pgmodel`: line-protocol driver. One request per line (a command word followed
 by natural numbers), one reply line per request. Context commands (`grammar`,
@@ -198,6 +199,22 @@ def handle (st : St) (cmd : String) (args : List Nat) : St × String :=
         | some alts => "sppf " ++ natList (alts.flatMap (fun a => [a.A, a.i, a.j, a.p, a.ks.length] ++ a.ks))
         | none => "sppf fuel")
     | _, _ => (st, "bad-sppf")
+  | "posok" =>
+    -- posok <len> <tree...>
+    match args with
+    | len :: rest =>
+      (match rdTree.run rest with
+       | some (t, _) => (st, if t.posOK && t.inBounds len then "posok 1" else "posok 0")
+       | none => (st, "bad-tree"))
+    | _ => (st, "bad-posok")
+  | "posokr" =>
+    -- posokr <tree...>: positions well formed modulo layout (needs `input`)
+    match st.inp with
+    | some inp =>
+      (match rdTree.run args with
+       | some (t, _) => (st, if t.posOKModLayout inp then "posokr 1" else "posokr 0")
+       | none => (st, "bad-tree"))
+    | none => (st, "bad-posokr")
   | "fwf" => (st, if st.F.wf then "fwf 1" else "fwf 0")
   | "sols" =>
     match args with
